@@ -542,7 +542,8 @@ func c04(c *core.Ctx, r *core.Report) {
 			r.Undecided("C04.R3", "exposer-table", c.FnPos(l.exposer), "abstract interpretation left the model: "+und)
 		} else {
 			rs.report(c, r, l.exposer, func(row string) string {
-				if row == "expose-iff-condition" || row == "lookup-after-init" {
+				// (early-reuse: what is published for the name is the early reference that was handed out for it)
+				if row == "expose-iff-condition" || row == "lookup-after-init" || row == "early-reuse" {
 					return "C04.R3"
 				}
 				return ""
